@@ -76,6 +76,8 @@ theorem reveal_hidden_eq (t : UInt16) (v secret : Bytes) (rv : UInt32) :
   · have : (decide ((word16 x y).toNat < 6) || decide ((word16 x y).toNat > 1023)) = false := by simpa using c1
     rw [this]
     simp only [Bool.false_eq_true, if_false, c1]
+    rw [subM_ok (by omega)]
+    simp only [hrest]
     by_cases c2 : (word16 x y).toNat - 6 > v.length - 2
     · simp [c2]
     · rw [if_neg c2, if_neg c2, inSub_ok _ (by omega)]
